@@ -171,9 +171,13 @@ def _orchestrate(pid: str, tier: str, seed: int) -> int:
 
     # deciding counters: computed from what the monitors observed
     undecided = []
+    tightest = None
     for name, minimum in meta.get("deciding", {}).get(tier, meta.get("deciding", {}).get("any", {})).items():
         if counters.get(name, 0) < minimum:
             undecided.append(f"deciding counter {name}={counters.get(name, 0)} < {minimum}")
+        ratio = counters.get(name, 0) / max(1, minimum)
+        if tightest is None or ratio < tightest[0]:
+            tightest = (ratio, name, counters.get(name, 0), minimum)
 
     known = core.load_known_findings()
     new_violations = []
@@ -250,7 +254,8 @@ def _orchestrate(pid: str, tier: str, seed: int) -> int:
         if code == 0:
             code = 2
     cnt = ", ".join(f"{k}={v}" for k, v in sorted(counters.items()) if k in meta.get("headline", []) or k == "evaluations")
-    print(f"{pid} {tier} seed={seed}: {evidence['verdict']}; distinct_nontrivial={len(distinct)}; {cnt}; {evidence['wall_s']}s")
+    margin = f"; tightest deciding counter {tightest[1]}={tightest[2]} (needs {tightest[3]})" if tightest else ""
+    print(f"{pid} {tier} seed={seed}: {evidence['verdict']}; distinct_nontrivial={len(distinct)}; {cnt}{margin}; {evidence['wall_s']}s")
     return code
 
 
